@@ -29,6 +29,14 @@ DEDICATED = [
     ("deref_generic_where", "#[derive_ex::derive_ex(Deref, DerefMut)]\npub struct X<T>(pub Vec<T>) where T: Clone;"),
     ("default_all_kinds", "#[derive_ex::derive_ex(Default)]\npub enum X<T> { A, #[default] B { #[default(\"x\")] a: String, b: Option<T>, #[default(vec![1])] c: Vec<u8> } }"),
     ("debug_transparent_generic", "#[derive_ex::derive_ex(Debug)]\npub enum X<T, U> { A(#[debug(transparent)] T, #[debug(ignore)] U), B { #[debug(ignore)] a: U } }"),
+    # user-written operator impls on references with *named* lifetimes (the named lifetime is part of the operand type, not a form to strip)
+    ("impl_named_lifetime_in_output", "#[derive_ex::derive_ex(BitOr)]\nimpl<'a> core::ops::BitOr for &'a Cset { type Output = &'a Cset; fn bitor(self, rhs: &'a Cset) -> &'a Cset { if self.0 >= rhs.0 { self } else { rhs } } }\n#[derive(Clone)] pub struct Cset(pub u8);"),
+    ("impl_static_rhs", "#[derive_ex::derive_ex(Add)]\nimpl core::ops::Add<&'static Clabel> for Clabel { type Output = Clabel; fn add(self, rhs: &'static Clabel) -> Clabel { Clabel(self.0 ^ rhs.0) } }\n#[derive(Clone)] pub struct Clabel(pub u8);"),
+    ("impl_named_lifetime_assign", "#[derive_ex::derive_ex(Sub, SubAssign)]\nimpl<'a> core::ops::Sub<&'a Cv> for Cv { type Output = Cv; fn sub(self, rhs: &'a Cv) -> Cv { Cv(self.0 ^ rhs.0) } }\n#[derive(Clone)] pub struct Cv(pub u8);"),
+    ("impl_elided_refs_generic", "#[derive_ex::derive_ex(Mul, MulAssign)]\nimpl<T: Copy> core::ops::Mul<&Cg<T>> for &Cg<T> where T: core::ops::Mul<Output = T> { type Output = Cg<T>; fn mul(self, rhs: &Cg<T>) -> Cg<T> { Cg(self.0 * rhs.0) } }\n#[derive(Clone)] pub struct Cg<T>(pub T);"),
+    ("impl_from_assign_generic", "#[derive_ex::derive_ex(Shl)]\nimpl<T: Copy> core::ops::ShlAssign<u8> for Ch<T> where T: core::ops::ShlAssign<u8> { fn shl_assign(&mut self, rhs: u8) { self.0 <<= rhs } }\npub struct Ch<T>(pub T);"),
+    ("underscore_field_names_enum", "#[derive_ex::derive_ex(Clone, Debug, Default, PartialEq, Eq, PartialOrd, Ord, Hash)]\npub enum X { #[default] A { _pad: u8, _x1: u8 }, B(u8) }"),
+    ("underscore_field_names_struct", "#[derive_ex::derive_ex(Clone, Debug, Default, PartialEq, Eq, PartialOrd, Ord, Hash, Add, SubAssign, Neg)]\npub struct X { pub _pad: i8, pub _x1: i8 }"),
     ("ops_generic_all_forms", "#[derive_ex::derive_ex(Add, Sub, Mul, Div, Rem, BitAnd, BitOr, BitXor, Shl, Shr, AddAssign, SubAssign, MulAssign, DivAssign, RemAssign, BitAndAssign, BitOrAssign, BitXorAssign, ShlAssign, ShrAssign, Neg, Not)]\npub struct X<T, U> { pub a: T, pub b: U }"),
 ]
 
@@ -43,8 +51,13 @@ def run(ctx):
     ex = Expander()
     kept, own_error = [], 0
     for p in progs:
-        body = p.text.split("\n\n")[0]
-        r = ex.derive(body.replace("#[derive_ex::derive_ex(", "#[derive_ex(").replace("#[derive(derive_ex::Ex)]\n", "")) if True else None
+        body = p.meta.get("plain") or p.text.split("\n\n")[0]
+        if body.startswith("#[derive_ex::derive_ex(") and "\nimpl" in body:
+            # impl item: attribute entry point only; the item is the impl up to the end of its line
+            a, rest = body[len("#[derive_ex::derive_ex("):].split(")]\n", 1)
+            r = ex.attr(a, rest.split("\n")[0])
+        else:
+            r = ex.derive(body.replace("#[derive_ex::derive_ex(", "#[derive_ex(").replace("#[derive(derive_ex::Ex)]\n", ""))
         if r["status"] == "ok" and r.get("items") is not None and any(i["kind"] == "compile_error" for i in r["items"]):
             own_error += 1
             continue
